@@ -10,6 +10,7 @@ use std::collections::{BTreeMap, BTreeSet};
 pub struct ModelState {
     pub cells: BTreeMap<u8, i64>,
     pub singles: [Option<i64>; 2],
+    pub tags: BTreeMap<u8, i64>,
 }
 
 pub struct ModelEnv<'a> {
@@ -58,6 +59,15 @@ impl Env for ModelEnv<'_> {
     fn via_ref(&self, m: u8) -> i64 {
         bodies::via_ref_value(&bodies::rows_body(self, self.p, m)[0])
     }
+    fn tags(&self) -> i64 {
+        self.st
+            .tags
+            .iter()
+            .fold(3i64, |acc, (k, v)| acc.wrapping_mul(11).wrapping_add(*k as i64 * 3 + *v))
+    }
+    fn tag(&self, k: u8) -> Option<i64> {
+        self.st.tags.get(&k).copied()
+    }
 }
 
 /// Identity of a derived node, as the model names it.
@@ -95,6 +105,8 @@ pub enum Dep {
     Cell(u8),
     Single(u8),
     Counter,
+    /// the counter of the second tracked field
+    TagCounter,
     D(NKey),
 }
 
@@ -140,6 +152,7 @@ pub struct Tracker {
     pub cell_version: BTreeMap<u8, u64>,
     pub single_version: [u64; 2],
     pub counter_version: u64,
+    pub tag_counter_version: u64,
     frames: Vec<Frame>,
     pub violations: Vec<Violation>,
     pub op_index: usize,
@@ -178,6 +191,7 @@ impl Tracker {
             Dep::Cell(k) => self.cell_version.get(k).copied().unwrap_or(0),
             Dep::Single(i) => self.single_version[*i as usize % 2],
             Dep::Counter => self.counter_version,
+            Dep::TagCounter => self.tag_counter_version,
             Dep::D(k) => self.recs.get(k).map(|r| r.change_count).unwrap_or(u64::MAX),
         }
     }
